@@ -85,6 +85,7 @@ def c02(r):
 
     offs = r["spec"].get("level_offsets")
     lvl_of = {}
+    seed_of = {}
 
     def true_fit(g, lvl=0):
         t = (tuple(g), lvl if offs else 0)
@@ -109,9 +110,13 @@ def c02(r):
         k = e["e"]
         if k == "new":
             lvl_of[e["id"]] = e["level"]
+            seed_of[e["id"]] = (e["seed"][0], e["seed"][1]) if e["seed"] is not None else None
         if k == "gen":
             for g, fit in e["inds"]:
-                if not chk(g, fit, f"deme {e['deme']} generation {e['gi']}", i, lvl_of.get(e["deme"], 0)):
+                lv = lvl_of.get(e["deme"], 0)
+                if e["gi"] == 0 and seed_of.get(e["deme"]) == (g, fit):
+                    lv = max(lv - 1, 0)      # a local deme's first generation IS its seed: the parent's individual, valued by the parent level's problem
+                if not chk(g, fit, f"deme {e['deme']} generation {e['gi']}", i, lv):
                     break
         elif k == "new" and e["seed"] is not None:
             # the seed is an individual of the PARENT: it carries the parent level's objective value
